@@ -2,7 +2,7 @@
 from paths import explore
 from sym import fmt, walk
 from rules.common import path_calls
-from rules.streams import is_call
+from rules.streams import is_call, norm
 
 
 def fresh_sinks(ctx, R):
@@ -48,3 +48,65 @@ def fresh_sinks(ctx, R):
                         ctx.check(R, fresh, 'sink:%s' % f.path, 'an output file is opened for writing without truncation (%s): if a longer file exists (`--force`) its tail stays behind the new FST and the result is not in the documented format' % sorted(k for k, v in opts.items() if v), fn=f, at=t.get('span'))
     if n == 0:
         ctx.undecided(R, 'sinks', 'no output file creation found in the command line crate', fn=None)
+
+
+IGNORED_USES = ('::next', 'Try>::branch', 'Try::branch', 'from_residual', 'drop_in_place', 'mem::drop', 'IntoIterator>::into_iter', 'IntoIterator::into_iter')
+
+
+def loop_items(f):
+    """(headers whose item is handed on, headers with an iteration that drops its item, iterations looked at) for the loops of f that
+    draw items from an iterator / stream (`next()` ... Some(item)); counting loops over integer ranges are skipped"""
+    from rules import layout
+    loops = f.loops()
+    ok, bad, n = set(), set(), 0
+    if not loops:
+        return ok, bad, n
+    for p in explore(f, max_visits=1, havoc=True, limit=3000):
+        if p.end != 'cut':
+            continue
+        h = p.blocks[-1]
+        src = layout.iter_source(f, h)
+        if src is not None and any(x[0] == 'agg' and (x[1].endswith('ops::Range') or x[1].endswith('ops::RangeInclusive')) for x in walk(src[2])):
+            continue
+        body = loops.get(h, set())
+        nx = [d for d in p.cdecisions() if d[2][0] == 'discr' and is_call(d[2][1], '::next') and d[3] == 1 and d[1] in body]
+        if not nx:
+            continue
+        k_n = nx[-1][0]
+        item = norm(nx[-1][2][1])
+        used = False
+        for (k, bid, callee, args, t) in path_calls(p, expand=False):
+            if k <= k_n or not isinstance(callee, str) or callee.endswith(IGNORED_USES):
+                continue
+            if any(norm(x) == item for a in args for x in walk(a) if x[0] == 'call'):
+                used = True
+                break
+        if not used:
+            for (k, i, loc, st) in p.stores():
+                if k > k_n:
+                    v = p.sym.rvalue_at(st['rv'], (k, i))
+                    if any(norm(x) == item for x in walk(v) if x[0] == 'call'):
+                        used = True
+                        break
+        n += 1
+        (ok if used else bad).add(h)
+    return ok, bad, n
+
+
+def params_handed_on(f):
+    """by-value parameters (index >= 2 for methods, >= 1 for associated functions) that some returning path never hands to any call:
+    [(param index, name)]"""
+    out = []
+    first = 2 if f.arg_count >= 1 and ('self' == (f.local_name(1) or '')) else 1
+    for i in range(first, f.arg_count + 1):
+        par = ('param', f.local_name(i), i)
+        dropped = False
+        for p in explore(f, max_visits=1, havoc=True, limit=500):
+            if p.end != 'return':
+                continue
+            used = any(isinstance(c[2], str) and not c[2].endswith(('drop_in_place', 'mem::drop')) and any(x == par for a in c[3] for x in walk(a)) for c in path_calls(p, expand=False))
+            if not used:
+                dropped = True
+        if dropped:
+            out.append((i, f.local_name(i)))
+    return out
